@@ -2,11 +2,107 @@
 use super::util::*;
 use crate::case::{Case, Failure, Op};
 use crate::gen;
-use crate::ind;
+use crate::ind::{self, Ind, B};
 use crate::rec::Rec;
+use crate::rng::Rng;
 use crate::runner::{Runner, Tier};
 
+/// kind long-run: extra = [seed, number of calls, probability of an injected non-finite / extreme value].
+/// One reset-free run, regenerated from the seed (2^20 .. 2^24+ calls are not stored), driven directly under
+/// catch_unwind; clone / Display / Debug / serialization at the end.
+fn check_long(case: &Case) -> Option<Failure> {
+    let seed = case.extra[0] as u64;
+    let len = case.extra[1] as usize;
+    let wp = case.extra[2];
+    let mut rng = Rng::new(seed);
+    let mut inst = match std::panic::catch_unwind(|| Ind::create(&case.ind, &case.ps, &case.ms)) {
+        Ok(Some(Ok(i))) => i,
+        _ => return fail(case, "ctor", format!("constructor failed for {:?} {:?}", case.ps, case.ms)),
+    };
+    let bars = !inst.has_next();
+    let mut t = 0usize;
+    let r = std::panic::catch_unwind(std::panic::AssertUnwindSafe(|| {
+        while t < len {
+            let x = if wp > 0.0 && rng.chance(wp) { gen::weird(&mut rng) } else { 100.0 + (rng.unit() - 0.5) * 20.0 };
+            if bars {
+                inst.next_bar(&B { o: x, h: x + 1.0, l: x - 0.4, c: x + 0.3, v: 10.0 + (t % 5) as f64 });
+            } else {
+                inst.next(x);
+            }
+            t += 1;
+        }
+    }));
+    if r.is_err() {
+        return fail(case, "panic", format!("panic at call #{} of a reset-free run (period(s) {:?})", t, case.ps));
+    }
+    let r = std::panic::catch_unwind(std::panic::AssertUnwindSafe(|| {
+        let c = inst.clone();
+        let _ = c.display();
+        let _ = c.debug();
+        c.ser().len()
+    }));
+    if r.is_err() {
+        return fail(case, "panic-aux", format!("clone/Display/Debug/serialize panicked after {} calls", len));
+    }
+    None
+}
+
+/// kind clone-from: ops = <destination's own history> Mark <source's history> Mark <continuation incl. resets>,
+/// extra = the destination's parameters. dst.clone_from(&src), then the copy keeps being driven.
+fn check_clone_from(case: &Case, rec: &mut Rec) -> Option<Failure> {
+    let marks: Vec<usize> = case.ops.iter().enumerate().filter(|(_, o)| **o == Op::Mark).map(|(i, _)| i).collect();
+    if marks.len() < 2 {
+        return None;
+    }
+    let (dps, dms) = super::c05::dst_params(case);
+    let src = match mk(case, rec) {
+        Ok(i) => i,
+        Err(f) => return Some(f),
+    };
+    let (dst, res) = rec.new_ind(&case.ind, &dps, &dms);
+    if res != crate::rec::NewRes::Ok {
+        return fail(case, "ctor", format!("constructor returned {:?} for {:?} {:?}", res, dps, dms));
+    }
+    for (i, op) in case.ops[..marks[0]].iter().enumerate() {
+        if let Some(None) = feed(rec, dst, op) {
+            return fail(case, "panic", format!("panic at destination history op {} ({:?})", i, op));
+        }
+    }
+    for (i, op) in case.ops[marks[0] + 1..marks[1]].iter().enumerate() {
+        if let Some(None) = feed(rec, src, op) {
+            return fail(case, "panic", format!("panic at source history op {} ({:?})", i, op));
+        }
+    }
+    if !rec.clone_from(dst, src) {
+        return fail(case, "panic", format!("dst.clone_from(&src) panicked (dst built with {:?} {:?})", dps, dms));
+    }
+    for (i, op) in case.ops[marks[1] + 1..].iter().enumerate() {
+        if *op == Op::Mark {
+            continue;
+        }
+        if let Some(None) = feed(rec, dst, op) {
+            return fail(case, "panic", format!("panic at op {} ({:?}) after dst.clone_from(&src) (dst built with {:?} {:?}, src with {:?} {:?})", i, op, dps, dms, case.ps, case.ms));
+        }
+    }
+    let r = std::panic::catch_unwind(std::panic::AssertUnwindSafe(|| {
+        let c = rec.get(dst).unwrap().clone();
+        let _ = c.display();
+        let _ = c.debug();
+        c.ser().len()
+    }));
+    if r.is_err() {
+        return fail(case, "panic-aux", "clone/Display/Debug/serialize panicked on a clone_from copy".into());
+    }
+    None
+}
+
 pub fn check(case: &Case, rec: &mut Rec) -> Option<Failure> {
+    if case.kind == "long-run" {
+        return check_long(case);
+    }
+    if case.kind == "clone-from" {
+        return check_clone_from(case, rec);
+    }
     let id = match mk(case, rec) {
         Ok(i) => i,
         Err(f) => return Some(f),
@@ -77,9 +173,64 @@ pub fn generate(r: &mut Runner) {
         c.ops.push(Op::Mark);
         r.run(c, true);
     }
+    // Clone::clone_from into an already used instance with the same / other parameters, then keep driving the copy
+    // (next, reset, clone, Display, Debug, serialization)
+    let cf = if r.tier == Tier::Quick { 440 } else { 6600 };
+    r.log_every = if r.tier == Tier::Quick { 11 } else { 101 };
+    for i in 0..cf {
+        let name = ind::NAMES[i % ind::NAMES.len()];
+        let (np, nm) = ind::arity(name).unwrap();
+        let top = if r.rng.chance(0.5) { 6 } else { 64 };
+        let ps: Vec<usize> = (0..np).map(|_| r.rng.range(1, top)).collect();
+        let ms: Vec<f64> = (0..nm).map(|_| gen::multiplier(&mut r.rng)).collect();
+        let same = r.rng.chance(0.3);
+        let dps: Vec<usize> = if same { ps.clone() } else { (0..np).map(|_| r.rng.range(1, top)).collect() };
+        let dms: Vec<f64> = if same { ms.clone() } else { (0..nm).map(|_| gen::multiplier(&mut r.rng)).collect() };
+        let mx = ps.iter().chain(dps.iter()).copied().max().unwrap_or(1);
+        let mut c = Case::new("C12", "clone-from", name, &ps, &ms);
+        c.extra = dps.iter().map(|p| *p as f64).chain(dms.iter().copied()).collect();
+        let wp = [0.0, 0.05, 0.3][i % 3];
+        let hd = r.rng.range(0, 3 * mx + 3);
+        let ha = r.rng.range(0, 3 * mx + 3);
+        c.ops = super::c04::history(r, name, hd, wp, 1.0);
+        c.ops.push(Op::Mark);
+        c.ops.extend(super::c04::history(r, name, ha, wp, 1.0));
+        c.ops.push(Op::Mark);
+        let cl = 3 * mx + 3 + r.rng.below(10);
+        c.ops.extend(super::c04::history(r, name, cl, wp, 1.0));
+        r.run(c, true);
+    }
+    // long reset-free runs: counters / cursors that only matter after 2^16, 2^20 (thorough: 2^24) calls; periods that are
+    // NOT powers of two (so that no ring cursor is back at 0 when the call count reaches a power of two) and 2^k ones
+    r.log_every = u64::MAX;
+    let rounds = if r.tier == Tier::Quick { 2 } else { 4 };
+    for round in 0..rounds {
+        for name in ind::NAMES {
+            let (np, nm) = ind::arity(name).unwrap();
+            let slow = matches!(*name, "MeanAbsoluteDeviation" | "CommodityChannelIndex" | "EfficiencyRatio");
+            let big = r.tier == Tier::Thorough && round == 0;
+            let top = if slow { if big { 9 } else { 24 } } else if round % 2 == 0 { 100 } else { 1000 };
+            let ps: Vec<usize> = (0..np)
+                .map(|_| loop {
+                    let p = r.rng.range(3, top);
+                    if round == 3 || !p.is_power_of_two() {
+                        break p;
+                    }
+                })
+                .collect();
+            let ms: Vec<f64> = (0..nm).map(|_| gen::multiplier(&mut r.rng)).collect();
+            let mx = ps.iter().copied().max().unwrap_or(1);
+            let len = (if big { 1usize << 24 } else { 1usize << 20 }) + 2 * mx + 3 + r.rng.below(1000);
+            let mut c = Case::new("C12", "long-run", name, &ps, &ms);
+            let wp = if round % 2 == 0 { 0.0 } else { 1e-4 };
+            c.extra = vec![(r.rng.u64() % (1 << 50)) as f64, len as f64, wp];
+            r.steps += len as u64;
+            r.run(c, true);
+        }
+    }
     // the generic differential sessions (all ops of the protocol)
     let mut st_rng = r.rng.fork();
     let _ = &mut st_rng;
 }
 
-pub const RULE: &str = "all 22 indicators × every period 1..=64 × at least 3·period+3 calls (every reachable cursor/counter state), with 0% / 5% / 30% injected values from {NaN, ±inf, ±f64::MAX, ±1e308, MIN_POSITIVE, ±5e-324, ±0}, malformed bars (five independent fields), interior resets, multipliers from {0,-1,2,1e300,NaN,inf}; then sampled periods 65..=4096; at the end of each case clone, Display, Debug and bincode serialization are invoked. Built with overflow-checks and debug-assertions on; every call under catch_unwind. Every case is non-trivial (wraps each ring at least 3 times or, for large periods in the quick tier, fills it).";
+pub const RULE: &str = "all 22 indicators × every period 1..=64 × at least 3·period+3 calls (every reachable cursor/counter state), with 0% / 5% / 30% injected values from {NaN, ±inf, ±f64::MAX, ±1e308, MIN_POSITIVE, ±5e-324, ±0}, malformed bars (five independent fields), interior resets, multipliers from {0,-1,2,1e300,NaN,inf}; then sampled periods 65..=4096; at the end of each case clone, Display, Debug and bincode serialization are invoked. kind clone-from: an already used instance (history 0..3n+3 ops; same parameters in 30% of the cases, else independently drawn periods 1..6 / 1..64 and multipliers) is overwritten with dst.clone_from(&src) (src fed 0..3n+3 ops), then the copy is driven for 3n+3.. more ops incl. injected values and resets, and cloned / displayed / serialized. kind long-run (stream regenerated from a seed in extra): every indicator, reset-free runs of 2^20 + 2n + 3.. calls (thorough: one round of 2^24+ calls) with periods that are not powers of two (3..100 and 3..1000; 3..24 for the O(period)-per-step indicators), without and with 1e-4 injected non-finite / extreme values. Built with overflow-checks and debug-assertions on; every call under catch_unwind. Every case is non-trivial (wraps each ring at least 3 times or, for large periods in the quick tier, fills it).";
